@@ -373,7 +373,7 @@ Definition hc_of (l : list nat) : list (nat * nat) := flat_map (fun ti => flat_m
 Lemma estep_h_ok ti e : In ti sel -> GIm e ->
   GIm (estep_h e ti) /\ ext e (estep_h e ti) /\
   (forall d y, domain c (tr c ti) = Some d -> IC d (eff_targets c (Spec.n c) h (ft_targets (tr c ti))) y -> In y (e_enter (estep_h e ti))) /\
-  e_histcontent (estep_h e ti) = rev (flat_map hc_one (ft_targets (tr c ti))) ++ e_histcontent e.
+  e_histcontent (estep_h e ti) = hc_ins (flat_map hc_one (ft_targets (tr c ti))) (e_histcontent e).
 Proof.
   intros Hti HG. unfold estep_h. cbn zeta. rewrite (Hdom ti Hti).
   destruct (ft_targets (tr c ti)) as [|g0 tg'] eqn:Htg.
@@ -381,7 +381,7 @@ Proof.
     { destruct (eff_targets c (Spec.n c) h []) as [|y l] eqn:E; [reflexivity|].
       exfalso. assert (Hy : In y (eff_targets c (Spec.n c) h [])) by (rewrite E; now left).
       apply (eff_spec [] y) in Hy as (s & [] & _). intros s []. }
-    rewrite He. cbn [fold_left flat_map rev app]. split; [exact HG|]. split; [apply ext_refl|].
+    rewrite He. cbn [fold_left flat_map]. split; [exact HG|]. split; [apply ext_refl|].
     split; [intros d y _ [_ (g & [] & _)] | reflexivity].
   - rewrite <- Htg in *. destruct (hdomain_some c ti) as (d & Hd); [rewrite Htg; discriminate|]. rewrite Hd.
     assert (Hb : BmH d (eff_targets c (Spec.n c) h (ft_targets (tr c ti)))) by (exists ti; auto).
@@ -397,7 +397,7 @@ Qed.
 Lemma spec_fold_ok_h l : forall e, (forall ti, In ti l -> In ti sel) -> GIm e ->
   GIm (fold_left estep_h l e) /\ ext e (fold_left estep_h l e) /\
   (forall ti d y, In ti l -> domain c (tr c ti) = Some d -> IC d (eff_targets c (Spec.n c) h (ft_targets (tr c ti))) y -> In y (e_enter (fold_left estep_h l e))) /\
-  e_histcontent (fold_left estep_h l e) = rev (hc_of l) ++ e_histcontent e.
+  e_histcontent (fold_left estep_h l e) = hc_ins (hc_of l) (e_histcontent e).
 Proof.
   induction l as [|ti rr IH]; intros e Hl HG; cbn [fold_left].
   - split; [exact HG|]. split; [apply ext_refl|]. split; [intros ti d y [] | reflexivity].
@@ -405,16 +405,16 @@ Proof.
     destruct (IH (estep_h e ti) (fun z Hz => Hl z (or_intror Hz)) A1) as (A & B' & C & D').
     split; [exact A|]. split; [eapply ext_trans; eauto|]. split.
     + intros tj d y [<-|Htj] Hd Hy; [apply (proj1 B'); exact (C1 d y Hd Hy) | exact (C tj d y Htj Hd Hy)].
-    + rewrite D', D1. unfold hc_of. cbn [flat_map]. rewrite rev_app_distr, <- app_assoc. reflexivity.
+    + rewrite D', D1. unfold hc_of. cbn [flat_map]. now rewrite hc_ins_app.
 Qed.
 
 Notation ES := (compute_entry_set c h sel).
 
-Lemma spec_GI_h : GIm ES /\ (forall r G y, BmH r G -> IC r G y -> In y (e_enter ES)) /\ e_histcontent ES = rev (hc_of sel).
+Lemma spec_GI_h : GIm ES /\ (forall r G y, BmH r G -> IC r G y -> In y (e_enter ES)) /\ e_histcontent ES = hc_ins (hc_of sel) [].
 Proof.
   rewrite compute_entry_set_fold_h.
   destruct (spec_fold_ok_h sel _ (fun ti H => H) (GIH_empty c BmH)) as (A & _ & C & D').
-  split; [exact A|]. split; [|rewrite D'; apply app_nil_r]. intros r G y (ti & Hti & Hd & ->) Hy. exact (C ti r y Hti Hd Hy).
+  split; [exact A|]. split; [|exact D']. intros r G y (ti & Hti & Hd & ->) Hy. exact (C ti r y Hti Hd Hy).
 Qed.
 
 Theorem spec_set_h x : In x (e_enter ES) <-> exists r G, D c BmH r G x.
@@ -422,9 +422,6 @@ Proof. destruct spec_GI_h as (A & B' & _). exact (final_set_h c W BmH HB2h ES A 
 
 Theorem spec_default_h x : In x (e_default ES) <-> kd x = FCompound /\ exists r G, D c BmH r G x /\ NTG c x G.
 Proof. destruct spec_GI_h as (A & B' & _). exact (final_default_h c W BmH HB2h ES A B' x). Qed.
-
-Theorem spec_hc_h : rev (e_histcontent ES) = hc_of sel.
-Proof. destruct spec_GI_h as (_ & _ & A). rewrite A. apply rev_involutive. Qed.
 
 (* ------------------------------------------------------------------ the engine *)
 
@@ -642,6 +639,23 @@ Proof.
   destruct (res_ok s1 Hh1) as (q1 & R1). destruct (res_ok s2 Hh2) as (q2 & R2).
   apply (hist_parents t1 s1 q1 s2 q2 Hs1 Hh1 R1 Hs2 Hh2 R2). left.
   pose proof (ro_par _ _ R1) as E1. pose proof (ro_par _ _ R2) as E2. congruence.
+Qed.
+
+(* defaultHistoryContent is a table (one entry per parent) and holds what hc_of lists *)
+Theorem spec_hc_nodup : NoDup (map fst (e_histcontent ES)).
+Proof. destruct spec_GI_h as (_ & _ & A). rewrite A. apply hc_ins_keys. constructor. Qed.
+
+Lemma hc_of_fun : hc_fun (hc_of sel).
+Proof.
+  intros [p1 t1] [p2 t2] H1 H2 E. cbn [fst] in E. subst p2.
+  apply hc_of_spec in H1 as (tj1 & s1 & A1 & A2 & A3 & _ & A5 & r1 & A6).
+  apply hc_of_spec in H2 as (tj2 & s2 & B1 & B2 & B3 & _ & B5 & r2 & B6).
+  destruct (hist_target_unique tj1 s1 tj2 s2 p1 A1 A2 A3 A5 B1 B2 B3 B5) as [_ ->]. rewrite A6 in B6. now injection B6 as ->.
+Qed.
+
+Theorem spec_hc_in p ti : In (p, ti) (e_histcontent ES) <-> In (p, ti) (hc_of sel).
+Proof.
+  destruct spec_GI_h as (_ & _ & A). rewrite A, hc_ins_In; [cbn [In]; tauto|]. rewrite app_nil_r. exact hc_of_fun.
 Qed.
 
 (* a state that is entered by default has no targeted history child *)
